@@ -398,11 +398,23 @@ def sp_digit_of_arc(ex, e, st):
     return out
 
 
+def _use_succ(ex):
+    if not getattr(ex, "_succ_on", False):
+        ex._succ_on = True
+        ex.axioms += specz3.succ_axioms()
+
+
+def sp_succ(ex, e, st):
+    """succ(v, j, k): the j-th shift successor of vertex v (order k)."""
+    _use_succ(ex)
+    return specz3.succ4(_int(ex.ev(e.args[0], st)), _int(ex.ev(e.args[1], st)), _int(ex.ev(e.args[2], st)))
+
+
 def sp_is_accessor(ex, e, st):
     acc, k = _mat(ex.ev(e.args[0], st)), _int(ex.ev(e.args[1], st))
-    v = fresh("v")
-    q = sp_ipow_val(4, k - 1)
-    body = z3.And(*[z3.Or(acc.at(v, j) == -1, acc.at(v, j) == (v % q) * 4 + j) for j in range(4)])
+    v = z3.Int("v#acc")
+    _use_succ(ex)
+    body = z3.And(*[z3.Or(acc.at(v, j) == -1, acc.at(v, j) == specz3.succ4(v, iv(j), k)) for j in range(4)])
     return z3.And(acc.rows == sp_ipow_val(4, k), acc.cols == 4, z3.ForAll([v], z3.Implies(z3.And(0 <= v, v < acc.rows), body), patterns=[acc.arr2[v]]))
 
 
@@ -442,6 +454,42 @@ def sp_enc_step(ex, e, st):
     nuc = z3.If(col == 0, iv(65), z3.If(col == 1, iv(67), z3.If(col == 2, iv(71), iv(84))))
     return z3.And(0 <= v, v < acc.rows, d >= 1, x > 0, gq.at(p + 1) == nxt,
                   s.at(p) == nuc, vtx.at(p + 1) == acc.arr2[v][col], acc.arr2[v][col] >= 0)
+
+
+def sp_fast_step(ex, e, st):
+    """fast_step(acc, shuffles, bits, loc, vtx, s, p): position p of a fast-mode strand: at vertex vtx[p] with out-degree d (1, 2 or 4) and bit cursor
+    loc[p] < len(bits):  d = 4 consumes two bits, most significant first (a missing last bit reads as 0), d = 2 one bit, d = 1 none; the digit selects
+    the live arc by rank; the cursor and the vertex advance accordingly."""
+    acc, shuf = _mat(ex.ev(e.args[0], st)), ex.ev(e.args[1], st)
+    bits, loc, vtx, s = [_seq(ex.ev(x, st)) for x in e.args[2:6]]
+    p = _int(ex.ev(e.args[6], st))
+    v = vtx.at(p)
+    d = row_deg(acc, v)
+    c = loc.at(p)
+    second = z3.If(c + 1 < bits.n, bits.at(c + 1), iv(0))
+    digit = z3.If(d == 4, 2 * bits.at(c) + second, bits.at(c))
+    col = z3.If(d > 1, row_arc(acc, shuf, v, digit), row_arc(acc, NONE, v, iv(0)))
+    nuc = z3.If(col == 0, iv(65), z3.If(col == 1, iv(67), z3.If(col == 2, iv(71), iv(84))))
+    return z3.And(0 <= v, v < acc.rows, z3.Or(d == 1, d == 2, d == 4), 0 <= c, c < bits.n,
+                  loc.at(p + 1) == c + z3.If(d == 4, 2, z3.If(d == 2, 1, 0)),
+                  s.at(p) == nuc, vtx.at(p + 1) == acc.arr2[v][col], acc.arr2[v][col] >= 0)
+
+
+def sp_fast_cells(ex, e, st):
+    """fast_cells(out, dgp, ddp, locd, p): the bit cells written for position p: out-degree 4 -> cells locd[p] (digit // 2) and locd[p]+1 (digit % 2, if it
+    exists); out-degree 2 -> cell locd[p] (the digit); out-degree 1 -> none; and locd advances by the number of bits."""
+    out, dgp, ddp, locd = [_seq(ex.ev(x, st)) for x in e.args[:4]]
+    p = _int(ex.ev(e.args[4], st))
+    d, g, c = dgp.at(p), ddp.at(p), locd.at(p)
+    return z3.And(z3.Or(d == 1, d == 2, d == 4), 0 <= c,
+                  locd.at(p + 1) == c + z3.If(d == 4, 2, z3.If(d == 2, 1, 0)),
+                  z3.Implies(d == 4, z3.And(c < out.n, out.at(c) == g / 2, z3.Implies(c + 1 < out.n, out.at(c + 1) == g % 2))),
+                  z3.Implies(d == 2, z3.And(c < out.n, out.at(c) == g)))
+
+
+def sp_floc(ex, e, st):
+    acc, s = _mat(ex.ev(e.args[0], st)), _seq(ex.ev(e.args[1], st))
+    return specz3.flocf(acc.arr2, s.arr, s.start, _int(ex.ev(e.args[2], st)), _int(ex.ev(e.args[3], st)))
 
 
 def sp_link(ex, e, st):
@@ -546,11 +594,10 @@ def sp_nsucc(ex, e, st):
     """nsucc(X, v, k): number of the four shift successors of v that are marked (non-zero) in the 0/1 array X."""
     x = _seq(ex.ev(e.args[0], st))
     v, k = _int(ex.ev(e.args[1], st)), _int(ex.ev(e.args[2], st))
-    q = sp_ipow_val(4, k - 1)
-    base = (v % q) * 4
+    _use_succ(ex)
     tot = None
     for j in range(4):
-        t = z3.If(x.at(base + j) != 0, iv(1), iv(0))
+        t = z3.If(x.at(specz3.succ4(v, iv(j), k)) != 0, iv(1), iv(0))
         tot = t if tot is None else tot + t
     return tot
 
@@ -610,6 +657,6 @@ def sp_accepts(ex, e, st):
 SPEC = {
     "forall": sp_forall, "forall_q": lambda ex, e, st: sp_forall(ex, e, st, expand=False), "exists": lambda ex, e, st: sp_forall(ex, e, st, exists=True), "implies": sp_implies, "old": sp_old,
     "digits": sp_digits, "val": sp_val, "dval": sp_dval, "val2": sp_val2, "canon": sp_canon, "ipow": sp_ipow, "dig": sp_dig,
-    "same": sp_same_seq, "upd": sp_upd, "accepts": sp_accepts, "shuffled_row": sp_shuffled_row, "rng_is": sp_rng_is, "row_is": sp_row_is, "rdeg": sp_rdeg, "rarc": sp_rarc, "rdigit": sp_rdigit, "is_perm_row": sp_is_perm_row, "row": sp_row, "rwalkv": sp_rwalkv, "A2": sp_A2, "vt_matches": sp_vt_matches, "rwt": sp_rwt, "rlv": sp_rlv, "rhv": sp_rhv, "here": sp_here, "deg": sp_deg, "arc_of_digit": sp_arc_of_digit, "digit_of_arc": sp_digit_of_arc, "is_accessor": sp_is_accessor,
-    "is_table": sp_is_table, "first": sp_first, "second": sp_second, "dec_step": sp_dec_step, "walkv": sp_walkv, "enc_step": sp_enc_step, "link": sp_link, "wt": sp_wt, "lv": sp_lv, "hv": sp_hv, "ascents": sp_ascents, "nsucc": sp_nsucc, "rsum": sp_rsum, "code": sp_code, "dnav": sp_dnav, "codes": sp_codes, "is_dna": sp_is_dna, "pv": sp_pv, "store": sp_store, "A": sp_A, "D": sp_D, "P": sp_P, "seq_is": sp_seq_is, "seq_is_cons": sp_seq_is_cons, "ite": sp_ite, "isnone": sp_isnone, "cnt": sp_cnt, "ssum": sp_ssum,
+    "same": sp_same_seq, "upd": sp_upd, "accepts": sp_accepts, "succ": sp_succ, "shuffled_row": sp_shuffled_row, "rng_is": sp_rng_is, "row_is": sp_row_is, "rdeg": sp_rdeg, "rarc": sp_rarc, "rdigit": sp_rdigit, "is_perm_row": sp_is_perm_row, "row": sp_row, "rwalkv": sp_rwalkv, "A2": sp_A2, "vt_matches": sp_vt_matches, "rwt": sp_rwt, "rlv": sp_rlv, "rhv": sp_rhv, "here": sp_here, "deg": sp_deg, "arc_of_digit": sp_arc_of_digit, "digit_of_arc": sp_digit_of_arc, "is_accessor": sp_is_accessor,
+    "is_table": sp_is_table, "first": sp_first, "second": sp_second, "dec_step": sp_dec_step, "walkv": sp_walkv, "enc_step": sp_enc_step, "fast_step": sp_fast_step, "fast_cells": sp_fast_cells, "floc": sp_floc, "link": sp_link, "wt": sp_wt, "lv": sp_lv, "hv": sp_hv, "ascents": sp_ascents, "nsucc": sp_nsucc, "rsum": sp_rsum, "code": sp_code, "dnav": sp_dnav, "codes": sp_codes, "is_dna": sp_is_dna, "pv": sp_pv, "store": sp_store, "A": sp_A, "D": sp_D, "P": sp_P, "seq_is": sp_seq_is, "seq_is_cons": sp_seq_is_cons, "ite": sp_ite, "isnone": sp_isnone, "cnt": sp_cnt, "ssum": sp_ssum,
 }
